@@ -4690,6 +4690,8 @@ def jr2(m, run, rule='JR2.dictionary-round-trip-on-real-classes'):
                 why = 'export does not return a dictionary'
             else:
                 back = sk.call(m.func('_exchange.import_dict_' + tag), [data], {})
+                if isinstance(back, Bag):
+                    run.extra.setdefault('imported_kv_normalize', {})['_exchange.import_dict_' + tag] = back._a.get('_kv_normalize')
                 a, b = src._a, back._a
                 if not isinstance(back, Bag) or back is src:
                     why = 'import does not return a new shape'
@@ -5703,6 +5705,8 @@ def sm2(m, run, rule='SM2.mesh-file-round-trip-on-real-classes'):
                         why = 'file %s: %s' % (fname_, why)
                         break
                     back = sk.call(m.func(imp), [fname_], {})
+                    if isinstance(back, Bag):
+                        run.extra.setdefault('imported_kv_normalize', {})[imp] = back._a.get('_kv_normalize')
                     b = back._a if isinstance(back, Bag) else {}
                     pre = 'file %s: ' % fname_ if multi else ''
                     if not isinstance(back, Bag) or back is src:
